@@ -413,3 +413,56 @@ theorem spacingDiagsRun_clean (toks : List Token) (trace : List Segment) (hc : W
   exact checkSpacing_clean g.rule _ g.len (hc.drop g.start)
 
 end Norm
+
+namespace Norm
+
+/-! ### termination of the loop of `CheckSpacing` (C05, rule level) -/
+
+/-- every iteration moves the index forward, whatever the tokens are -/
+theorem spacingBody_advances (ts : List Token) (n : Nat) (st : SpSt) (hin : st.i < n) (hl : st.i < ts.length) :
+    st.i < (spacingBody ts n st).i := by
+  unfold spacingBody
+  split
+  · rename_i hS
+    simp only
+    split
+    · unfold spaceCol1
+      simp only [mixedBefore_i]
+      have hge := skipTy_succ_of ts "SPACE" (some n) ts.length st.i hS (by simp [inBound, hin])
+      split <;> simp only <;> omega
+    · rw [mixedAfter_i]
+      unfold consecutiveAt
+      simp only [trailingAt_i, mixedBefore_i]
+      split
+      · have hge := skipTy_ge ts "SPACE" (some n) (ts.length + 1) (st.i + 1)
+        split <;> simp only <;> omega
+      · simp only; omega
+  · split
+    · rename_i hT
+      split
+      · unfold tabCol1
+        simp only
+        have hge := skipTy_succ_of ts "TAB" none ts.length st.i hT (by simp [inBound])
+        split <;> simp only <;> omega
+      · simp only; omega
+    · simp only; omega
+
+/-- **The loop of `CheckSpacing` ends by its own condition**: with the fuel the model gives it
+(`|ts| + 1`) it stops only when the index has left the statement — the `while` of the real rule
+terminates on every token list. -/
+theorem spacingLoop_terminates (ts : List Token) (n : Nat) :
+    ∀ (fuel : Nat) (st : SpSt), min n ts.length - st.i < fuel →
+      min n ts.length ≤ (spacingLoop ts n fuel st).i := by
+  intro fuel
+  induction fuel with
+  | zero => intro st h; omega
+  | succ f ih =>
+    intro st h
+    unfold spacingLoop
+    split
+    · rename_i hc
+      have hadv := spacingBody_advances ts n st (by omega) (by omega)
+      exact ih _ (by omega)
+    · omega
+
+end Norm
